@@ -1000,9 +1000,11 @@ def replay(path):
     if "table" in case:
         table = fix_table(case["table"])
         with djsetup.components_settings(dirs=[COMPS]):
-            for key, rk in (("history", "raw"), ("other_history", "other_raw")):
-                if key in case:
-                    h = [tuple(a) for a in case[key]]
+            todo = [(key, rk, case[key]) for key, rk in (("history", "raw"), ("other_history", "other_raw")) if key in case]
+            todo += [("histories[%d]" % i, "raw", h) for i, h in enumerate(case.get("histories", []))]
+            for key, rk, hh in todo:
+                if True:
+                    h = [tuple(a) for a in hh]
                     raws = case.get(rk) or raws_for(table, len(table))
                     for rw in raws:
                         if rw is not None and rw["css"][0] == "dict":
